@@ -726,23 +726,24 @@ package graph
 //@     invariant all_discharged: kahnAllDischarged(g, P, m, placed, current, idx)
 //
 // ---- depths -------------------------------------------------------------------------------------------------------
-// CalculateDepths is a label-correcting relaxation over the Dependents lists. Ghost reading: QL keys were queued in all, h of them
-// were taken out again, the queue is the part [h, QL) of that history and last[k] is the history index of the latest time k was queued;
-// wit[k] / wj[k] name the Dependents entry (of node wit[k], at index wj[k]) through which the current depth of k was assigned.
+// CalculateDepths is a label-correcting relaxation over the Dependents lists. Ghost reading: where[k] is the position of the latest entry of
+// node k in the queue; when an entry is taken out at position r - from whichever end - the entries behind it move up by one (r is obtained
+// from the code's own slice operation, so the bookkeeping does not depend on the queue discipline); wit[k] / wj[k] name the Dependents entry
+// (of node wit[k], at index wj[k]) through which the current depth of k was assigned.
 // What is proved is the local characterisation of the result (partial correctness - on a cyclic graph the loop need not end, §6.3):
 //   a node has depth 0 exactly when it has no dependencies; every other node has depth -1 (never reached) or >= 1;
 //   every dependent of a node with a depth is strictly deeper (all lists relaxed);
 //   a depth >= 1 is witnessed by a dependency whose depth is at least one less.
 // Together: depth(k) = 1 + max depth of the dependencies of k that have a depth - the longest dependency chain on an acyclic graph.
-//@ pred depthQueue(g *DependencyGraph, queue []*Node, QL int, h int) = len(queue) == QL - h && h >= 0
-//@   && (forall i int :: 0 <= i && i < len(queue) ==> queue[i] != nil && (queue[i].Key in g.nodes) && g.nodes[queue[i].Key] == queue[i] && queue[i].Depth >= 0)
+//@ pred depthQueue(g *DependencyGraph, queue []*Node) =
+//@      forall i int :: 0 <= i && i < len(queue) ==> queue[i] != nil && (queue[i].Key in g.nodes) && g.nodes[queue[i].Key] == queue[i] && queue[i].Depth >= 0
 //@ pred depthRelaxedAt(g *DependencyGraph, c NodeKey, lim int) = forall j int :: 0 <= j && j < lim && j < len(g.nodes[c].Dependents) && (g.nodes[c].Dependents[j] in g.nodes) ==>
 //@      g.nodes[g.nodes[c].Dependents[j]].Depth >= g.nodes[c].Depth + 1
-//@ pred depthPending(g *DependencyGraph, queue []*Node, last fmap[NodeKey]int, QL int, h int, c NodeKey) = h <= last[c] && last[c] < QL && queue[last[c] - h] == g.nodes[c]
-//@ pred depthSettled(g *DependencyGraph, queue []*Node, last fmap[NodeKey]int, QL int, h int, cur NodeKey, lim int) = forall c NodeKey :: (c in g.nodes) && g.nodes[c].Depth >= 0 ==>
-//@      depthPending(g, queue, last, QL, h, c) || depthRelaxedAt(g, c, ite(c == cur, lim, len(g.nodes[c].Dependents)))
-//@ pred depthSettledAll(g *DependencyGraph, queue []*Node, last fmap[NodeKey]int, QL int, h int) = forall c NodeKey :: (c in g.nodes) && g.nodes[c].Depth >= 0 ==>
-//@      depthPending(g, queue, last, QL, h, c) || depthRelaxedAt(g, c, len(g.nodes[c].Dependents))
+//@ pred depthPending(g *DependencyGraph, queue []*Node, where fmap[NodeKey]int, c NodeKey) = 0 <= where[c] && where[c] < len(queue) && queue[where[c]] == g.nodes[c]
+//@ pred depthSettled(g *DependencyGraph, queue []*Node, where fmap[NodeKey]int, cur NodeKey, lim int) = forall c NodeKey :: (c in g.nodes) && g.nodes[c].Depth >= 0 ==>
+//@      depthPending(g, queue, where, c) || depthRelaxedAt(g, c, ite(c == cur, lim, len(g.nodes[c].Dependents)))
+//@ pred depthSettledAll(g *DependencyGraph, queue []*Node, where fmap[NodeKey]int) = forall c NodeKey :: (c in g.nodes) && g.nodes[c].Depth >= 0 ==>
+//@      depthPending(g, queue, where, c) || depthRelaxedAt(g, c, len(g.nodes[c].Dependents))
 //@ pred depthShape(g *DependencyGraph) = forall k NodeKey :: (k in g.nodes) ==> g.nodes[k].Depth >= 0 - 1 && ((g.nodes[k].Depth == 0) <==> (len(g.nodes[k].Dependencies) == 0))
 //@ pred depthWitnessed(g *DependencyGraph, wit fmap[NodeKey]NodeKey, wj fmap[NodeKey]int) = forall k NodeKey :: (k in g.nodes) && g.nodes[k].Depth >= 1 ==>
 //@      (wit[k] in g.nodes) && 0 <= wj[k] && wj[k] < len(g.nodes[wit[k]].Dependents) && g.nodes[wit[k]].Dependents[wj[k]] == k
@@ -757,19 +758,19 @@ package graph
 //@   safety[C15,C19]
 // the per-node lists are those of the edges (true after every completed operation: AddProvider, RemoveProvider, DetectCycles)
 //@   requires lists_are_fresh: dependentsOK(g) && depsMirrorEdges(g)
-//@   ghost QL int
-//@   ghost h int
-//@   ghost last fmap[NodeKey]int
+//@   ghost where fmap[NodeKey]int
+//@   ghost oldq []*Node
 //@   ghost wit fmap[NodeKey]NodeKey
 //@   ghost wj fmap[NodeKey]int
 //@   exports wit, wj
-//@   at after assign queue#2 : ghost last[node.Key] := QL
-//@   at after assign queue#2 : ghost QL := QL + 1
-//@   at after assign queue#3 : ghost h := h + 1
+//@   at after assign queue#2 : ghost where[node.Key] := len(queue) - 1
+//@   at before assign queue#3 : ghost oldq := queue
+//@   at after assign queue#3 : obtain[C19] r int :: 0 <= r && r < len(oldq) && oldq[r] == current && len(queue) == len(oldq) - 1
+//@        && (forall i int :: 0 <= i && i < r ==> queue[i] == oldq[i]) && (forall i int :: r <= i && i < len(queue) ==> queue[i] == oldq[i + 1])
+//@   at after assign queue#3 : ghost where := mapof c NodeKey :: where[c] - ite(where[c] > r, 1, 0)
 //@   at after assign dep.Depth#1 : ghost wit[depKey] := current.Key
 //@   at after assign dep.Depth#1 : ghost wj[depKey] := idx
-//@   at after assign queue#4 : ghost last[depKey] := QL
-//@   at after assign queue#4 : ghost QL := QL + 1
+//@   at after assign queue#4 : ghost where[depKey] := len(queue) - 1
 //@   ensures[C19] graph_unchanged: g.nodes == old(g.nodes) && g.edges == old(g.edges) && wf(g)
 //@   ensures[C19] depth_zero_exactly_without_dependencies: depthShape(g)
 //@   ensures[C19] every_dependent_is_deeper by(settled, queue_ok): forall c NodeKey :: (c in g.nodes) && g.nodes[c].Depth >= 0 ==> depthRelaxedAt(g, c, len(g.nodes[c].Dependents))
@@ -777,19 +778,19 @@ package graph
 //@   loop 1
 //@     invariant reset: forall k NodeKey :: seen[k] && (k in g.nodes) ==> g.nodes[k].Depth == 0 - 1
 //@   loop 2
-//@     invariant queue_ok: !isnil(queue) && depthQueue(g, queue, QL, h) && h == 0
+//@     invariant queue_ok: !isnil(queue) && depthQueue(g, queue)
 //@     invariant leaves_first: forall k NodeKey :: (k in g.nodes) ==> g.nodes[k].Depth == ite(seen[k] && len(g.nodes[k].Dependencies) == 0, 0, 0 - 1)
-//@     invariant leaves_pending: forall k NodeKey :: (k in g.nodes) && g.nodes[k].Depth >= 0 ==> depthPending(g, queue, last, QL, h, k)
+//@     invariant leaves_pending: forall k NodeKey :: (k in g.nodes) && g.nodes[k].Depth >= 0 ==> depthPending(g, queue, where, k)
 //@   loop 3
-//@     invariant queue_ok: depthQueue(g, queue, QL, h)
+//@     invariant queue_ok: depthQueue(g, queue)
 //@     invariant shape: depthShape(g)
-//@     invariant settled by(settled, queue_ok, cur, wf, leaves_pending): depthSettledAll(g, queue, last, QL, h)
+//@     invariant settled by(settled, queue_ok, cur, wf, leaves_pending): depthSettledAll(g, queue, where)
 //@     invariant witnessed: depthWitnessed(g, wit, wj)
 //@   loop 4
-//@     invariant queue_ok: depthQueue(g, queue, QL, h)
+//@     invariant queue_ok: depthQueue(g, queue)
 //@     invariant cur: current != nil && (current.Key in g.nodes) && g.nodes[current.Key] == current && current.Depth >= 0
 //@     invariant shape: depthShape(g)
-//@     invariant settled by(settled, queue_ok, cur, wf, shape): depthSettled(g, queue, last, QL, h, current.Key, idx)
+//@     invariant settled by(settled, queue_ok, cur, wf, shape, r_exists): depthSettled(g, queue, where, current.Key, idx)
 //@     invariant witnessed: depthWitnessed(g, wit, wj)
 //
 //@ func NewDependencyGraphWithCapacity
